@@ -469,7 +469,8 @@ class GriffeLoader:
         seen = seen or set()
         seen.add(obj.path)
 
-        for member in obj.members.values():
+        # Resolving an alias can load a package, whose own wildcard expansion can add members to this object.
+        for member in list(obj.members.values()):
             # Handle aliases.
             if member.is_alias:
                 if member.wildcard or member.resolved:  # type: ignore[union-attr]
